@@ -240,6 +240,7 @@ pub fn stream_preludes(_sc: &StreamScenario) -> Vec<StreamScenario> {
                 buffered: false,
                 gate_calls: vec![],
                 trace: false,
+                via_builder: None,
                 inbound: mode.pong().to_vec(),
                 reads: vec![],
                 writes: vec![],
@@ -258,6 +259,7 @@ pub fn stream_preludes(_sc: &StreamScenario) -> Vec<StreamScenario> {
                 buffered: false,
                 gate_calls: vec![],
                 trace: false,
+                via_builder: None,
                 inbound: two,
                 reads: vec![],
                 writes: vec![],
@@ -272,6 +274,7 @@ pub fn stream_preludes(_sc: &StreamScenario) -> Vec<StreamScenario> {
                 buffered: false,
                 gate_calls: vec![],
                 trace: false,
+                via_builder: None,
                 inbound: vec![mode.size_byte(8), 4, 1],
                 reads: vec![],
                 writes: vec![],
